@@ -26,6 +26,7 @@ type field struct {
 	Go   string // Go method / field name
 	Tag  int64
 	T    typ
+	Sab  bool // sabotage=field: the generated-reader check expects value+1 (int64 fields)
 }
 
 type enumVal struct {
@@ -34,21 +35,38 @@ type enumVal struct {
 	Num  int64
 }
 
-type def struct {
-	Pkg    *pkg
-	Kind   string // enum | struct | msg | service | subservice
+// method is a resolved service method. Req / Resp are the request / response messages (named or
+// induced by inline fields), Sub the subservice a method returns, ChIn / ChOut the channel messages.
+type method struct {
 	Name   string
-	File   string // schema file name (without extension) which declares or induces it
-	Vals   []enumVal
-	Fields []field // message fields or struct fields (Tag unused)
-	Syn    *schema.Def
+	Go     string
+	Req    *def
+	Resp   *def
+	Sub    *def
+	ChIn   *def
+	ChOut  *def
+	Oneway bool
+}
+
+func (m *method) channel() bool { return m.ChIn != nil || m.ChOut != nil }
+
+type def struct {
+	Pkg     *pkg
+	Kind    string // enum | struct | msg | service | subservice
+	Name    string
+	File    string // schema file name (without extension) which declares or induces it
+	Vals    []enumVal
+	Fields  []field // message fields or struct fields (Tag unused)
+	Syn     *schema.Def
+	Methods []*method
 	// message induced by a method (request / response)
 	Induced bool
 }
 
 type pkg struct {
 	ID     string // schema import id, also the Go package name
-	GoPath string
+	GoPath string // Go import path: the go_package option
+	Dir    string // directory of the Go package relative to the module root
 	Defs   []*def
 	byName map[string]*def
 	Src    *schema.Package
@@ -89,6 +107,21 @@ func buildModel(b *schema.Bundle, module string) (*model, error) {
 	m := &model{byID: map[string]*pkg{}}
 	for _, sp := range b.Packages {
 		p := &pkg{ID: sp.ID, GoPath: module + "/" + sp.ID, byName: map[string]*def{}, Src: sp, deps: map[string]*pkg{}}
+		for _, f := range sp.Files {
+			for _, o := range f.File.Options {
+				if o.Name == "go_package" {
+					p.GoPath = o.Value
+				}
+			}
+		}
+		root := module
+		if i := strings.Index(root, "/"); i >= 0 {
+			root = root[:i]
+		}
+		if !strings.HasPrefix(p.GoPath, module+"/") {
+			return nil, fmt.Errorf("package %s: go_package %q is outside of %s", p.ID, p.GoPath, module)
+		}
+		p.Dir = strings.TrimPrefix(p.GoPath, root+"/")
 		m.Pkgs = append(m.Pkgs, p)
 		m.byID[p.ID] = p
 	}
@@ -198,7 +231,47 @@ func buildModel(b *schema.Bundle, module string) (*model, error) {
 				default:
 					// methods with inline fields induce request / response messages
 					for _, mt := range sd.Methods {
+						rm := &method{Name: mt.Name, Go: upperCamel(mt.Name), Oneway: mt.Oneway}
+						d.Methods = append(d.Methods, rm)
+						named := func(b *schema.BaseT, what string) (*def, error) {
+							t, e := resolve(schema.Ty{Base: *b})
+							if e != nil {
+								return nil, e
+							}
+							if t.D == nil {
+								return nil, fmt.Errorf("%s.%s: %s is not a definition", d.Name, mt.Name, what)
+							}
+							return t.D, nil
+						}
+						if mt.InType != nil {
+							if rm.Req, err = named(mt.InType, "input"); err != nil {
+								return nil, err
+							}
+						}
+						if mt.OutType != nil {
+							od, e := named(mt.OutType, "output")
+							if e != nil {
+								return nil, e
+							}
+							if od.Kind == "msg" {
+								rm.Resp = od
+							} else {
+								rm.Sub = od
+							}
+						}
+						if mt.ChanIn != nil {
+							if rm.ChIn, err = named(&mt.ChanIn.Base, "channel input"); err != nil {
+								return nil, err
+							}
+						}
+						if mt.ChanOut != nil {
+							if rm.ChOut, err = named(&mt.ChanOut.Base, "channel output"); err != nil {
+								return nil, err
+							}
+						}
+						var induced *def
 						induce := func(suffix string, fs []schema.Field) error {
+							induced = nil
 							if len(fs) == 0 {
 								return nil
 							}
@@ -213,17 +286,20 @@ func buildModel(b *schema.Bundle, module string) (*model, error) {
 							}
 							p.byName[nd.Name] = nd
 							p.Defs = append(p.Defs, nd)
+							induced = nd
 							return nil
 						}
 						if mt.InType == nil {
 							if err = induce("Request", mt.InFields); err != nil {
 								return nil, err
 							}
+							rm.Req = induced
 						}
 						if mt.OutType == nil && mt.HasOutFields {
 							if err = induce("Response", mt.OutFields); err != nil {
 								return nil, err
 							}
+							rm.Resp = induced
 						}
 					}
 				}
@@ -236,6 +312,13 @@ func buildModel(b *schema.Bundle, module string) (*model, error) {
 	// package dependencies of the support code
 	for _, p := range m.Pkgs {
 		for _, d := range p.Defs {
+			for _, mt := range d.Methods {
+				for _, x := range []*def{mt.Req, mt.Resp, mt.Sub, mt.ChIn, mt.ChOut} {
+					if x != nil && x.Pkg != p {
+						p.deps[x.Pkg.ID] = x.Pkg
+					}
+				}
+			}
 			for _, f := range d.Fields {
 				if f.T.D != nil && f.T.D.Pkg != p {
 					p.deps[f.T.D.Pkg.ID] = f.T.D.Pkg
